@@ -4,6 +4,8 @@ import (
 	"fmt"
 	"go/types"
 	"math/big"
+	"os"
+	"runtime"
 	"strings"
 
 	"golang.org/x/tools/go/ssa"
@@ -22,6 +24,8 @@ type State struct {
 	epoch  string // non-empty after a havoc-all: lazily materialised content gets fresh names
 	viewImg map[string]*Term
 	guards  []*loopGuard
+	stops   []*stopRec            // pending join points (state merging)
+	phiOverride map[*ssa.Phi]Val  // phi values of the join block of a merged state
 }
 
 // loopGuard: the objects a loop with an explicit modifies clause may write.
@@ -55,6 +59,7 @@ func (st *State) clone() *State {
 		defers: st.defers[:len(st.defers):len(st.defers)],
 		epoch:  st.epoch,
 		guards: st.guards,
+		stops:  st.stops[:len(st.stops):len(st.stops)],
 	}
 	for k, v := range st.vals {
 		n.vals[k] = v
@@ -416,7 +421,9 @@ func (ex *Exec) zeroVal(t types.Type, name string) Val {
 					sv.Ghost = map[string]Val{}
 				}
 				srt, _ := sortByName(g.Sort)
-				sv.Ghost[g.Name] = App("zero_"+strings.ReplaceAll(TypeKey(t), "/", "_")+"_"+g.Name, srt)
+				zn := "zero_" + strings.NewReplacer("/", "_", ".", "_").Replace(TypeKey(t)) + "_" + g.Name
+				ex.UFs[zn] = &UFSig{Name: zn, Ret: srt}
+				sv.Ghost[g.Name] = App(zn, srt)
 			}
 			return sv
 		}
@@ -541,6 +548,10 @@ func (ex *Exec) heapGet(st *State, o *Obj) Val {
 		nm = strings.TrimSuffix(nm, suf)
 	}
 	v = ex.materialise(o, nm)
+	if pv, ok := v.(*PtrV); ok {
+		st.heap[o] = v
+		ex.assumeValid(st, pv, o.T, 1)
+	}
 	st.heap[o] = v
 	return v
 }
@@ -764,7 +775,22 @@ type abortErr struct{ msg string }
 func (a *abortErr) Error() string { return a.msg }
 
 func abortf(format string, args ...interface{}) *abortErr {
-	return &abortErr{msg: fmt.Sprintf(format, args...)}
+	msg := fmt.Sprintf(format, args...)
+	if os.Getenv("GOVC_TRACE") != "" {
+		buf := make([]byte, 1<<14)
+		n := runtime.Stack(buf, false)
+		var fr []string
+		for _, l := range strings.Split(string(buf[:n]), "\n") {
+			if strings.Contains(l, "/govc/cmd/govc/") {
+				fr = append(fr, strings.TrimSpace(l[strings.LastIndex(l, "/")+1:]))
+			}
+		}
+		if len(fr) > 8 {
+			fr = fr[:8]
+		}
+		msg += " @ " + strings.Join(fr, " <- ")
+	}
+	return &abortErr{msg: msg}
 }
 
 // pathStop ends the current path silently (infeasible, panic already reported, ...).
